@@ -163,6 +163,15 @@ class ItemList:
         if vocabulary is not None:
             if not isinstance(vocabulary, Vocabulary):  # pragma: nocover
                 raise TypeError(f"expected Vocabulary, got {type(vocabulary)}")
+            if (
+                isinstance(source, ItemList)
+                and source._vocab is not None
+                and source._vocab is not vocabulary
+                and source._numbers is not None
+            ):
+                # the copied numbers index the source's vocabulary, not the new one
+                self._ids = source.ids()
+                del self._numbers
             self._vocab = vocabulary
 
         # handle aliases for item ID/number columns
